@@ -65,6 +65,14 @@ def run(ctx):
                                                       "-4B", "2,1B", "%d" % rng.randint(-366, 366), "%dB" % rng.randint(-60, 60)]),
                                              rng.choice(["HIJRI", "HIJRI.IA", "HIJRI.IIC", "HIJRI.DIYANET", "HIJRI.IVA"]))
             cls = {"shift", "hijri", "hijri-shift"}
+        if i % 19 == 8 and not zoned:
+            # weekdays of given months of a Hijri year
+            r = rfc5545.Rule("YEARLY")
+            r.bymonth = sorted(rng.sample(range(1, 13), rng.randint(1, 3)))
+            r.byday = [(0, w) for w in sorted(rng.sample(range(7), rng.randint(1, 3)))]
+            if rng.random() < 0.4:
+                r.count = rng.choice([10, 70, 200])
+            ext, cls = ";SCALE=%s" % rng.choice(["HIJRI", "HIJRI.IA", "HIJRI.IIA", "HIJRI.IIC", "HIJRI.IVA", "HIJRI.DIYANET"]), {"hijri", "hijri-month-weekday"}
         if i % 13 == 6 and not zoned:
             # the Hijri scales under the daily and weekly fillers, with a time-of-day expansion
             r = rrgen.gen_rule(rng, ds, freq=rng.choice(["DAILY", "WEEKLY", "DAILY"]))
@@ -186,6 +194,13 @@ def run(ctx):
             # with a zone UNTIL is in UTC, as the occurrences are
             if inst[-1][:6] > r.until[:6]:
                 why = "last occurrence %s UTC lies after UNTIL %s UTC" % (inst[-1][:6], r.until[:6])
+        if why is None and not zone and "hijri" in cls and r.byday and not (cls & {"shift", "easter"}) and all(o == 0 for o, _ in r.byday):
+            # whatever the scale of the rule, BYDAY names weekdays, and a Hijri date's weekday is that of its Gregorian image (C15)
+            ok = {w for _, w in r.byday}
+            for j, x in enumerate(inst):
+                if dt.date(*x[:3]).weekday() not in ok:
+                    why = "occurrence %d (%s, a %s) is not on one of the rule's BYDAY weekdays" % (j, x[:3], dt.date(*x[:3]).strftime("%A"))
+                    break
         if why is None and r.count is not None and not ended and len(inst) == r.count and r.count < npop:
             why = "stream does not end after COUNT=%d occurrences" % r.count
         if why:
